@@ -149,6 +149,32 @@ PROPS = {
 }
 
 
+# session-3 additions to the level texts (theorem families promoted after the first complete pass; DESIGN.md section 9)
+API_TIE = ("The API layer (_base.py, _grid.py, _solver.py) is tied by generation as well: tools/py2coq/apigen.py extracts its arithmetic and "
+           "wiring on every run (gen/ApiGen.v) and proofs/ApiGenEq.v proves it equal to the hand model.")
+EXTRA = {
+    "C03": "SourceCell: the reported slowness is that of the cell containing the source (generic index characterisation, closed-cell membership over R, one-rounding bound and refutation of exact membership on binary64). " + API_TIE,
+    "C05": "VinterpScale / RayScale: interpolated times and free-step rays scale exactly with both units (every branch, 2D/3D); the grid-honouring mode is refuted below 1e-8 length units per cell (absolute grid magnetism). " + API_TIE,
+    "C06": "RayTranslate: rays translate with the frame (exact, both modes, 2D/3D); omitting the origin is the zero vector (extracted). " + API_TIE,
+    "C07": API_TIE + " (nsweep reaches the kernel as given)",
+    "C08": API_TIE + " (point lists reach the list kernels as given; thread helpers only forward to Numba)",
+    "C09": API_TIE,
+    "C10": "RayBudget: the step budget only decides between raising and returning - same count and rows for every sufficient budget, exhaustion for every insufficient one (every numeric instance, both modes, 2D/3D, entry points). " + API_TIE,
+    "C11": "GradSign / GradSign3d: every returned gradient component is a normalised one-sided difference quotient of the returned grid and its sign follows that difference (whole solvers, 2D/3D). " + API_TIE,
+    "C12": "The precondition of the interpolator safety theorems on the API side - axes with one node per sample of the CURRENT shape, recomputed on every access - is extracted from _base.py (ApiGenEq).",
+    "C13": "RayBudget: a ray returned with c+1 rows raises RuntimeError for every budget <= c and is returned unchanged for every budget > c. " + API_TIE,
+    "C14": API_TIE,
+    "C15": "RayBudget as in C10. " + API_TIE,
+    "C16": API_TIE + " (resample spacing a*b/c with the old shape read before the grid is replaced; smooth argument sigma/spacing)",
+    "C17": "Package surface extracted on every run: exactly 19 files, __init__ files only import and list names, no module-level state or monkeypatching (ApiGenEq).",
+    "C18": "VinterpSwap / InterpMirror: the traveltime interpolators under all axis relabellings; mirroring an axis: plain interpolators for every query, traveltime interpolators off the node lines (refuted on them for arbitrary grids).",
+    "C19": "The decorator combines options as defaults-override (one accepted shape); default keys are exactly four, so the kernels' own boundscheck=True reaches Numba; the table of explicit signatures is frozen.",
+    "C20": "The mesh-export layer is tied by generation as well: tools/py2coq/iogen.py -> gen/IoGen.v, proofs/IoGenEq.v (node coordinates k*d + x0, point/cell numbering, corner order, data order, ray segments with accumulated offsets).",
+}
+for _k, _v in EXTRA.items():
+    PROPS[_k]["explanation"] = PROPS[_k]["explanation"] + " " + _v
+
+
 def run_special(pid, tier, seed, work, cfg):
     """C19: the correspondence itself is the check; the 'oracle' is the API-level jit-vs-interpreter comparison."""
     import json
